@@ -881,6 +881,56 @@ def switch_edges_(b, sw):
     return {int(v): tg for v, tg in t[2]}, t[3]
 
 
+def r16(ctx, facts):
+    """`default_when_null` covers a field that is absent from the serialized UDT AND one that is present but NULL: the generated
+    by-name deserializer first flattens `Option<Option<slice>>` and then chooses between deserialize and Default::default(). A test
+    on the UNFLATTENED option sends an explicit NULL to deserialize, which refuses it (seed C16-l)."""
+    r = ctx.rule("R16", "by-name UDT deserialize: the choice of Default::default() for a default_when_null field is made on the flattened value (absent and NULL alike)", floor=1)
+    n = 0
+    for name, (kind, flavor, fields, derives) in sorted(FAMILY.items()):
+        if kind != "udt" or flavor != "name" or "d" not in derives:
+            continue
+        b = find_body(facts, r"^<derive_family::%s as scylla_cql_core::deserialize::value::DeserializeValue<'lifetime, 'lifetime_>>::deserialize$" % name)
+        df = df_of(b, facts)
+        defaults = [c for bb, c in b.calls() if bb in b.live_blocks and (c.decl or "") == "core::default::Default::default"]
+        for k, dcall in enumerate(defaults):
+            # nearest branch that decides between this default and something else
+            guard = None
+            for sw in sorted(b.live_blocks, reverse=True):
+                t = b.term(sw)
+                if t[0] != "switch" or not b.dominates(sw, dcall.bb) or sw == dcall.bb:
+                    continue
+                succs = [tg for _, tg in t[2]] + [t[3]]
+                if any(dcall.bb not in (b.reachable_from(tg, removed_nodes=[sw]) | {tg}) for tg in succs):
+                    if guard is None or b.dominates(guard, sw):
+                        guard = sw
+            if guard is None:
+                continue
+            t = b.term(guard)
+            e = df.expr_of_operand(t[1])
+            tested = None
+            if e[0] == "disc":
+                tested = b.local_ty(e[1][0]) if not e[1][1] else None
+            elif e[0] == "call":
+                ct = b.term(e[1])
+                if (ct[1].get("def") or "").split("::")[-1] in ("is_some", "is_none") and ct[2] and ct[2][0][0] in ("c", "m"):
+                    l = ct[2][0][1][0]
+                    d = b.single_def(l)
+                    if d and d[0] == "stmt" and d[3][0] == "ref":
+                        l = d[3][2][0]
+                    tested = b.local_ty(l)
+            if tested is None or "Option<" not in tested:
+                continue
+            n += 1
+            nested = tested.replace("&", "").startswith("core::option::Option<core::option::Option<")
+            r.instance("default-chosen-on-flattened-value:%s#%d" % (name, k), not nested,
+                       "Default::default() is chosen by a test on `%s`: a field that is present but NULL (`Some(None)`) goes to deserialize, which refuses the null, "
+                       "instead of being default-initialised as `default_when_null` documents" % tested, dcall.span)
+    if n == 0:
+        r.note("no default_when_null choice found in the by-name UDT deserializers of the family")
+        r.instance("family-has-default-when-null", False, "the family has no by-name UDT deserializer with a default_when_null field (the rule has nothing to judge)", None)
+
+
 CASE_FOLDING = ("eq_ignore_ascii_case", "to_lowercase", "to_uppercase", "to_ascii_lowercase", "to_ascii_uppercase", "make_ascii_lowercase",
                 "make_ascii_uppercase", "eq_ignore_case", "unicase")
 
@@ -919,7 +969,7 @@ def check(ctx):
         sers = r1(ctx, facts)
     except AnchorLost as ex:
         ctx.rule("R1x", "anchors").fail("anchor-lost", str(ex))
-    for fn in ((lambda c, f: r2(c, f, sers)), (lambda c, f: r12(c, f, sers)), r3, r4, r5, r6, r7, r8, r9, r10, r11, r13, r14, r15):
+    for fn in ((lambda c, f: r2(c, f, sers)), (lambda c, f: r12(c, f, sers)), r3, r4, r5, r6, r7, r8, r9, r10, r11, r13, r14, r15, r16):
         try:
             fn(ctx, facts)
         except AnchorLost as ex:
